@@ -328,7 +328,35 @@ def check_ring_threads(case):
     return sc.switches > 0, ["ring-threads", "switches=%d" % min(sc.switches, 3)]
 
 
+def long_ring_cases(tier, seed):
+    """one ring that has placed tens of thousands of different keys (a long-lived HashClient): placement stays the rule"""
+    for nn, total in ((3, 24000), (4, 18000), (2, 40000 if tier == "thorough" else 34000)):
+        yield {"nodes": nn, "total": total, "salt": seed % 97}
+
+
+def check_long_ring(case):
+    from pymemcache.client.rendezvous import RendezvousHash
+    nodes = RING_NODES[:case["nodes"]]
+    r = RendezvousHash(list(nodes))
+    bad = None
+    for i in range(case["total"]):
+        k = "key-%d-%d" % (case["salt"], i)
+        try:
+            got = r.get_node(k)
+        except Exception as e:  # noqa: BLE001
+            raise Violation(["long-ring", "raises", type(e).__name__], "get_node raised %r for key number %d (%r) of one ring over %r" % (e, i + 1, k, nodes))
+        if i % 7 == 0 or i > case["total"] - 300:
+            want = refhash.place(nodes, k)
+            if got != want:
+                raise Violation(["long-ring", "differs-from-reference"], "key number %d (%r) of one ring over %r is placed on %r, the rule gives %r" % (i + 1, k, nodes, got, want))
+    for k in ("key-%d-%d" % (case["salt"], i) for i in (0, 1, 2, 500, 501)):
+        if r.get_node(k) != refhash.place(nodes, k):
+            raise Violation(["long-ring", "early-key-moved"], "%r, placed at the start, is now placed on %r" % (k, r.get_node(k)))
+    return True, ["long-ring", "strings>65536" if case["total"] * case["nodes"] > 65536 else "strings<=65536"]
+
+
 PARTS = [
+    Part("one-long-lived-ring", "enum", check_long_ring, cases=long_ring_cases, shards={"quick": 3, "thorough": 3}),
     Part("one-ring-two-threads", "enum", check_ring_threads, cases=ring_thread_cases, exhaustive=True),
     Part("str-subclasses", "enum", check_subclass, cases=subclass_cases, shards={"quick": 1, "thorough": 1}, exhaustive=True),
     Part("ring-hash-function", "enum", check_ring_hash, cases=ring_hash_cases, shards={"quick": 1, "thorough": 1}, exhaustive=True),
